@@ -40,9 +40,9 @@ static int g_result_fd = 1;
 static void crash_handler(int sig, siginfo_t* si, void*) {
     char b[512];
     int n = snprintf(b, sizeof b,
-                     "{\"seed\":%llu,\"status\":\"viol\",\"class\":\"crash\",\"msg\":\"signal %d addr %p\",\"steps\":%llu,"
+                     "{\"seed\":%llu,\"status\":\"viol\",\"class\":\"crash\",\"msg\":\"signal %d addr %p %s\",\"steps\":%llu,"
                      "\"switches\":%llu,\"sim_ns\":%llu,\"hash\":\"%016llx\",\"probes\":{},\"faults\":{}}\n",
-                     (unsigned long long)sim::cfg.seed, sig, si ? si->si_addr : nullptr, (unsigned long long)sim::steps(),
+                     (unsigned long long)sim::cfg.seed, sig, si ? si->si_addr : nullptr, sim::context_tag(), (unsigned long long)sim::steps(),
                      (unsigned long long)sim::switches(), (unsigned long long)sim::now_ns(),
                      (unsigned long long)sim::event_hash());
     if (write(g_result_fd, b, n) < 0) {}
